@@ -23,7 +23,8 @@ RULE = ("exhaustive over scenarios (harness/c01.py: 31 native sets x AirPlay vid
         "set, failing-connect subset) pairs, 48 MRP-tunnel / unified-RAOP configurations, five real devices as pyatv's own "
         "scanner sees them (Apple TV 4K, Apple TV 3, HomePod, Music via HSCP, AirPort Express) x every set of their protocols "
         "left enabled, Companion's REAL connect callable against a fake device with every request of its connect sequence "
-        "rejected in turn, plus seeded random ones) x {no takeover, takeover holders} x 66 feature names, on the device object "
+        "rejected in turn, plus seeded random ones) x {no takeover, takeover holders} x 66 feature names read in every public way (get_feature, "
+        "all_features() with and without include_unsupported, in_state), on the device object "
         "returned by the real pyatv.connect() and on the model (keyed by the connected set); the same oracle again (a) on "
         "every device right after each other device was set up in the same process (all ordered pairs, seeded order) and "
         "(b) after every step of random well-formed takeover/release histories with refused takeovers; non-trivial = the "
